@@ -4,5 +4,5 @@ Extraction Language OCaml.
 Cd "../ocaml/gen".
 Extraction "m_c09.ml" getAsnLength32 getAsnLength getAsnSequence32 getAsnSet32 getAsnSequence getAsnSet
   getAsnInteger getAsnEnumerated getAsnEnumerated_unfixed asnCopyOid getAsnOID getAsnAlgorithmIdentifier getAsnTagLenUnsafe
-  parse_general_names parse_general_names_unfixed dn_attributes b64_decode pem_check_ok pem_decode pem_decode_pw pem_cert_list lenN.
+  crl_revoked crl_revoked_unfixed time_import parse_general_names parse_general_names_unfixed dn_attributes b64_decode pem_check_ok pem_decode pem_decode_pw pem_cert_list lenN.
 Cd "../../coq".
